@@ -100,7 +100,7 @@ func C06(c *core.Ctx) {
 	}
 	maxN := 3
 	if c.Tier == "thorough" {
-		maxN = 4
+		maxN = 5
 	}
 	nan := math.NaN()
 	streams := enumTargets(maxN, []float64{1, 2, nan}, []int64{1, 2})
@@ -147,7 +147,7 @@ func C06(c *core.Ctx) {
 			}
 			stubDistances(ev, table, nil)
 			out := &eval.ChanVal{Name: "out"}
-			_, err := ev.CallFunc(fn, mkRec("q", 5, 'A', 0), eval.S("raw"), &eval.ChanVal{Name: "in", Feed: feed}, out)
+			_, err := ev.CallFunc(fn, mkRec("t1", 5, 'A', 0), eval.S("raw"), &eval.ChanVal{Name: "in", Feed: feed}, out)
 			if err != nil {
 				badDef = append(badDef, fmt.Sprintf("%s: undecided: %v", showTargets(ts), err))
 				break
@@ -184,7 +184,7 @@ func C06(c *core.Ctx) {
 						gotSnp = s.String()
 					}
 				}
-				if qn.Const() != "q" || qi != 5 || gotSnp != wantSnp {
+				if qn.Const() != "t1" || qi != 5 || gotSnp != wantSnp {
 					badSnp = append(badSnp, fmt.Sprintf("[%s] -> qname=%s qidx=%d snps=%q, want q,5,%q", showTargets(ts), qn.Const(), qi, gotSnp, wantSnp))
 				}
 			}
@@ -217,7 +217,7 @@ func C06(c *core.Ctx) {
 					}
 					stubDistances(ev, table, nil)
 					out := &eval.ChanVal{Name: "out"}
-					_, err := ev.CallFunc(fn, mkRec("q", 5, 'A', 0), eval.K(int64(K)), eval.FConst(D), eval.S(measure), &eval.ChanVal{Name: "in", Feed: feed}, out)
+					_, err := ev.CallFunc(fn, mkRec("t1", 5, 'A', 0), eval.K(int64(K)), eval.FConst(D), eval.S(measure), &eval.ChanVal{Name: "in", Feed: feed}, out)
 					if err != nil {
 						badDef = append(badDef, fmt.Sprintf("%s K=%d D=%v: undecided: %v", showTargets(ts), K, D, err))
 						continue
@@ -252,7 +252,7 @@ func C06(c *core.Ctx) {
 							}
 							qn, _ := res.F["qname"].(eval.Str)
 							qi, _ := linConst(res.F["qidx"])
-							qok = qn.Const() == "q" && qi == 5
+							qok = qn.Const() == "t1" && qi == 5 // the query is named like the second target: being in the target file does not exclude a record from its own neighbourhood
 						}
 					}
 					if strings.Join(got, ",") != strings.Join(want, ",") || !qok {
@@ -333,6 +333,36 @@ func c06Dispatch(c *core.Ctx, fn *types.Func, name string, mkRec func(string, in
 		for t, v := range table {
 			if g, ok := got[t]; !ok || g != v+off[fname] {
 				bad = append(bad, fmt.Sprintf("measure %q: target %s reported at %v (present=%v), want %s(q, %s) = %v", measure, t, g, ok, fname, t, v+off[fname]))
+			}
+		}
+	}
+	// a full catchment whose furthest member is replaced by a later, more complete target at the same distance: every
+	// member is still reported at its own distance
+	if name != "findClosest" {
+		tab2 := map[string]float64{"t0": 3, "t1": 1, "t2": 3, "t3": 3}
+		for measure, fname := range map[string]string{"raw": "rawDistance", "snp": "snpDistance", "tn93": "tn93Distance"} {
+			for K := int64(1); K <= 3; K++ {
+				ev := newEval(c)
+				stub(ev, tab2, off)
+				out := &eval.ChanVal{Name: "out"}
+				feed := &eval.ChanVal{Name: "in", Feed: []eval.Value{mkRec("t0", 0, 'C', 1), mkRec("t1", 1, 'C', 1), mkRec("t2", 2, 'C', 2), mkRec("t3", 3, 'C', 3)}}
+				if _, err := ev.CallFunc(fn, mkRec("q", 5, 'A', 0), eval.K(K), eval.FConst(-1), eval.S(measure), feed, out); err != nil || len(out.Sent) != 1 {
+					bad = append(bad, fmt.Sprintf("%s K=%d: undecided: %v", measure, K, err))
+					continue
+				}
+				if cat, ok := out.Sent[0].(*eval.StructVal).F["catchment"].(eval.Slice); ok {
+					for _, e := range cat.Elems() {
+						r, _ := e.(*eval.StructVal)
+						if r == nil {
+							continue
+						}
+						d, _ := r.F["distance"].(*eval.FExpr)
+						tn, _ := r.F["tname"].(eval.Str)
+						if d == nil || !d.IsConst() || !tn.IsConst() || d.C != tab2[tn.Const()]+off[fname] {
+							bad = append(bad, fmt.Sprintf("measure %q K=%d (the furthest member replaced by a more complete one at the same distance): %s reported at %s, want %s(q, %s) = %v", measure, K, tn, eval.Show(r.F["distance"]), fname, tn, tab2[tn.Const()]+off[fname]))
+						}
+					}
+				}
 			}
 		}
 	}
